@@ -386,6 +386,9 @@ func init() {
 			}
 			var b []byte
 			if guard(func() string { b = gtab.VerifEncodeLookupList(ll); return "" }) != "" {
+				if f["refuse"] == "no" {
+					return "fail:encode-panics"
+				}
 				return "ok"
 			}
 			out, err := gtab.VerifReadLookupList(b, 0, uint16(ext))
@@ -782,6 +785,7 @@ func areaOtl(c *Ctx) {
 	otlLLSweep(c)
 	otlLLOffsetFamily(c)
 	otlLLWindowFamily(c)
+	otlLLBigFamily(c)
 	// the reader's budget: lookups + subtables <= 6000
 	for _, line := range []string{
 		"1/0/0/" + strings.TrimSuffix(strings.Repeat("n:2:1|", 5999), "|"),
@@ -2638,6 +2642,59 @@ func otlLLWindowFamily(c *Ctx) {
 		}
 		// the same list inside a GSUB table: the lookup list starts at 10 + script list + feature list
 		c.Case(Verdict, "otl.gtab.read", "data="+hx((&gtab.Info{ScriptList: gtab.ScriptListInfo{}, FeatureList: gtab.FeatureListInfo{}, LookupList: ll}).Encode()), true)
+	}
+}
+
+// otlLLBigFamily: 2-5 lookups of 33-72 KB each (1-2 subtables); in the "all" shapes every lookup but the
+// biggest - the SMALLEST too - has to go behind extension records, in the "some" shapes replacing the
+// larger ones suffices, in "none" nothing is replaced
+func otlLLBigFamily(c *Ctx) {
+	type shape struct {
+		what  string
+		sizes [][]int // per lookup: subtable sizes
+	}
+	shapes := []shape{
+		{"all", [][]int{{68000}, {72000}}},
+		{"all", [][]int{{72000}, {68000}}},
+		{"all", [][]int{{66000}, {70000}, {67000}}},
+		{"all", [][]int{{36000, 36100}, {36200, 36300}, {36400, 36500}, {36600, 36700}}},
+		{"all", [][]int{{66100}, {66200}, {33000, 33400}, {66300}, {72000}}},
+		{"all", [][]int{{34000, 34001}, {70000}}},
+		{"some", [][]int{{34000}, {36000}, {70000}}},
+		{"some", [][]int{{72000}, {33000}, {34000}, {35000}, {36000}}},
+		{"some", [][]int{{33000}, {36000, 36100}, {40000}}},
+		{"none", [][]int{{40000}, {70000}}},
+		{"reorder-only", [][]int{{70000}, {40000}}},
+		{"all", [][]int{{65530}, {65531}}},
+	}
+	if c.Tier != "thorough" {
+		// a dozen cases of 100-300 KB would dominate the quick tier: rotate, always with three "all" shapes
+		k := c.Rng.Intn(3)
+		shapes = []shape{shapes[k], shapes[3+k%3], shapes[11], shapes[6+k], shapes[9+k%2]}
+	}
+	for si, sh := range shapes {
+		ls := make([]string, len(sh.sizes))
+		for i, subs := range sh.sizes {
+			q := make([]string, len(subs))
+			for j, n := range subs {
+				q[j] = fmt.Sprintf("n:%d:%d", n, (7*i+j+si)%251)
+			}
+			if i == 0 {
+				q = append([]string{"g:5:3"}, q...) // decides the extension lookup type; first, so that its offset stays small
+			}
+			ls[i] = fmt.Sprintf("%d/%d/%d/%s", 1+i%4, []int{0, 16}[i%2], i+1, strings.Join(q, "|"))
+		}
+		line := strings.Join(ls, ";")
+		out := c.Case(Verdict, "otl.ll.encode", "ll="+line, true)
+		c.Stat("ll.big", sh.what+":"+outcomeClass(out))
+		// on the real code: Encode does not panic and readLookupList gives every lookup back
+		o := c.Case(Direct, "otl.ll.rt", "ll="+line+" refuse=no", true)
+		c.Stat("ll.big-rt", sh.what+":"+outcomeClass(o))
+		if strings.HasPrefix(out, "ok:") {
+			ll, _ := otlParseLL(line)
+			b := gtab.VerifEncodeLookupList(ll)
+			c.Case(Direct, "otl.ll.prop", fmt.Sprintf("ll=%s ext=7 sum=%s", line, otlShowBytes(b)), true)
+		}
 	}
 }
 
